@@ -538,6 +538,15 @@ pub fn run(sc: &Scenario) -> RunOutput {
                 ctx.log(a.node, aconn, Half::R, AppKind::AcceptStart, AppRes::Pending);
                 let fut = sock.accept();
                 let res = match a.cancel_after_ms {
+                    // (the application's select! looks at its deadline first: at a tie the call
+                    // is dropped without being polled again, whatever it holds by then)
+                    Some(ms) if ctx.sc.param("cancel_wins_ties") == Some(1) => {
+                        tokio::select! {
+                            biased;
+                            _ = tokio::time::sleep(Duration::from_millis(ms)) => None,
+                            r = fut => Some(r),
+                        }
+                    }
                     Some(ms) => match tokio::time::timeout(Duration::from_millis(ms), fut).await {
                         Ok(r) => Some(r),
                         Err(_) => None,
